@@ -110,7 +110,7 @@ class Quantity {
  public:
     using Rep = RepT;
     using Unit = UnitT;
-    static constexpr auto unit = Unit{};
+    static constexpr Unit unit{};
 
     static_assert(IsValidRep<Rep>::value, "Rep must meet our requirements for a rep");
 
@@ -426,6 +426,11 @@ class Quantity {
     Rep value_{};
 };
 
+// In C++14, a `static constexpr` data member is only _declared_ inside its class: a program which
+// odr-uses it (say, by binding `Q::unit` to a `const T &` parameter) needs these definitions to link.
+template <typename UnitT, typename RepT>
+constexpr UnitT Quantity<UnitT, RepT>::unit;
+
 // Give more readable error messages when passing `Quantity` to a unit slot.
 template <typename U, typename R>
 struct AssociatedUnit<Quantity<U, R>> {
@@ -554,7 +559,7 @@ constexpr auto rep_cast(Zero z) {
 template <typename UnitT>
 struct QuantityMaker {
     using Unit = UnitT;
-    static constexpr auto unit = Unit{};
+    static constexpr Unit unit{};
 
     template <typename T>
     constexpr Quantity<Unit, T> operator()(T value) const {
@@ -603,6 +608,9 @@ struct QuantityMaker {
         return QuantityMaker<UnitQuotientT<Unit, OtherUnit>>{};
     }
 };
+
+template <typename UnitT>
+constexpr UnitT QuantityMaker<UnitT>::unit;
 
 template <typename U>
 struct AssociatedUnit<QuantityMaker<U>> : stdx::type_identity<U> {};
